@@ -49,11 +49,28 @@ func classes(dict []string) []*rapid.Generator[string] {
 		rapid.Custom(func(t *rapid.T) string { return string(rapid.Rune().Draw(t, "r")) }),
 		rapid.Custom(func(t *rapid.T) string { return string(rune(rapid.IntRange(0, 0x10ffff).Draw(t, "cp"))) }),
 	}
+	g = append(g, Pad())
 	if len(dict) > 0 {
 		d := rapid.SampledFrom(dict)
 		g = append(g, d, d, d, d)
 	}
 	return g
+}
+
+// PadLens are run lengths around the usual buffer/limit boundaries.
+var PadLens = []int{2, 3, 7, 8, 9, 15, 16, 17, 31, 32, 33, 53, 54, 55, 63, 64, 65, 100, 127, 128, 129, 255, 256, 257, 511, 512, 513, 1023, 1024, 1025, 2048, 4095, 4096, 4097}
+
+// PadUnits are the units repeated by Pad.
+var PadUnits = []string{" ", "\t", "\n", "\r", "\f", "\x00", "\x01", "\x1f", "a", "A", "0", "/", ".", "%", "&", ";", ":", "<", "\"", "'", "-", "\xff", "\xc3\xa9", ",", "(", "\\"}
+
+// Pad draws a long run of one unit whose length sits at a power-of-two (or other) boundary:
+// defects that only show beyond a magic length need inputs that long.
+func Pad() *rapid.Generator[string] {
+	return rapid.Custom(func(t *rapid.T) string {
+		u := rapid.SampledFrom(PadUnits).Draw(t, "padunit")
+		n := rapid.SampledFrom(PadLens).Draw(t, "padlen")
+		return strings.Repeat(u, n)
+	})
 }
 
 // Piece draws one piece.
